@@ -108,7 +108,8 @@ class C17Kw2(C17Kw):
 #                order, or a normalising one); everything else - cached hash, ==, pickling by
 #                field tuple - still comes from the decorator
 #   hash=False   the decorator installs no hash: the class brings its own (uncached) one, or it
-#                derives from a dataclass node and inherits that node's
+#                derives from a dataclass node and inherits that node's, or it has neither and
+#                ends at the legacy Expression.__hash__
 # Bases: Expression itself, a plain (non-dataclass) intermediate class, a stock dataclass node,
 # a user dataclass node.  OPT_FIELDS: per class the fields in field order, "s" string / "c" child
 # (catalogue record User(cls, s, c): the s fields in order, the c fields in order).
@@ -237,6 +238,55 @@ class C17OiNhSub(C17Oi):
         _set(self, name=name, child=child, extra=extra)
 
 
+# hash=False WITHOUT an own __hash__, not below a dataclass node: hash() ends at the legacy
+# Expression.__hash__, which caches the value on the (frozen unless -O) instance
+@p.expr_dataclass(hash=False)
+class C17Lg(p.Expression):
+    """hash=False, no own hash, directly under Expression: inner node"""
+    name: str
+    child: object
+
+
+@p.expr_dataclass(hash=False)
+class C17LgLeaf(p.Expression):
+    """hash=False, no own hash, directly under Expression: leaf"""
+    name: str
+
+
+@p.expr_dataclass(hash=False)
+class C17LgMid(C17PlainBase):
+    """hash=False, no own hash, under a plain intermediate class: inner node"""
+    left: object
+    tag: str
+    right: object
+
+
+@p.expr_dataclass(hash=False)
+class C17LgMidLeaf(C17PlainBase):
+    """hash=False, no own hash, under a plain intermediate class: leaf"""
+    name: str
+    tag: str = "t"
+
+
+@p.expr_dataclass(init=False, hash=False)
+class C17OiLg(p.Expression):
+    """init=False, hash=False, no own hash: inner node"""
+    name: str
+    child: object
+
+    def __init__(self, child, name="lg"):
+        _set(self, name=name, child=child)
+
+
+@p.expr_dataclass(init=False, hash=False)
+class C17OiLgLeaf(C17PlainBase):
+    """init=False, hash=False, no own hash, under a plain intermediate class: leaf"""
+    name: str
+
+    def __init__(self, name):
+        _set(self, name=str(name))
+
+
 OPT_FIELDS = {
     "C17Oi": (("s", "name"), ("c", "child")),
     "C17OiLeaf": (("s", "name"), ("s", "tag")),
@@ -250,9 +300,16 @@ OPT_FIELDS = {
     "C17NhPair": (("c", "left"), ("s", "tag"), ("c", "right"), ("c", "extra")),
     "C17OiNhVar": (("s", "name"), ("s", "tag")),
     "C17OiNhSub": (("s", "name"), ("c", "child"), ("c", "extra")),
+    "C17Lg": (("s", "name"), ("c", "child")),
+    "C17LgLeaf": (("s", "name"),),
+    "C17LgMid": (("c", "left"), ("s", "tag"), ("c", "right")),
+    "C17LgMidLeaf": (("s", "name"), ("s", "tag")),
+    "C17OiLg": (("s", "name"), ("c", "child")),
+    "C17OiLgLeaf": (("s", "name"),),
 }
 OPT_CLASSES = (C17Oi, C17OiLeaf, C17OiMid, C17OiVar, C17OiSub, C17OiNh, C17OiNhLeaf,
-               C17NoHashLeaf, C17NhVar, C17NhPair, C17OiNhVar, C17OiNhSub)
+               C17NoHashLeaf, C17NhVar, C17NhPair, C17OiNhVar, C17OiNhSub,
+               C17Lg, C17LgLeaf, C17LgMid, C17LgMidLeaf, C17OiLg, C17OiLgLeaf)
 
 
 def _mk_opt(cls, flds):
